@@ -1,6 +1,7 @@
 # C16 Wire formats: writer/reader table agreement (structure of the codecs), prefix/sequence coding
 import re
 from sa.rules import *
+import rules.wave3 as W3
 import rules.shared as shared
 from sa import codec
 
@@ -195,4 +196,7 @@ def rules(t):
             rr.sites += x.sites
             for v in x.violations: rr.bad(v.key, v.site, v.msg)
     out.append(rr)
+    out.append(W3.wire_narrowing(t, "C16.h"))
+    out.append(W3.decoder_append_only(t, "C16.i"))
+    out.append(W3.reader_identity(t, "C16.j"))
     return out
